@@ -18,7 +18,7 @@
 //!
 //! Reference model: `Vec<key>`; see `run_history` for the exact demands.
 use std::cell::RefCell;
-use std::collections::BTreeMap;
+use std::collections::{BTreeMap, HashMap, HashSet};
 use std::sync::mpsc::{Receiver, Sender, channel};
 use std::sync::{Arc, Mutex};
 
@@ -29,7 +29,6 @@ use datafusion_expr::EmitTo;
 use datafusion_physical_plan::InputOrderMode;
 use datafusion_physical_plan::aggregates::group_values::{GroupValues, new_group_values};
 use datafusion_physical_plan::aggregates::order::GroupOrdering;
-use mc_core::explore::{Step, bfs_histories};
 use mc_core::serde_json::{Value, json};
 use mc_core::{Ctx, Level, rayon::prelude::*, run_check};
 use serde::{Deserialize, Serialize};
@@ -850,7 +849,8 @@ struct Job {
     si: usize,
     sorted: bool,
     enc: u8,
-    history: Vec<Op>,
+    /// histories to replay, each on a fresh store; one reply per history, in order
+    histories: Vec<Vec<Op>>,
     want_trace: bool,
 }
 
@@ -901,16 +901,12 @@ impl Executor {
             .spawn(move || {
                 ABORT_TX.with(|t| *t.borrow_mut() = Some(rtx.clone()));
                 while let Ok(job) = jrx.recv() {
-                    let mut trace = vec![];
-                    let out = run_history(
-                        &d[job.si],
-                        job.sorted,
-                        job.enc,
-                        &job.history,
-                        if job.want_trace { Some(&mut trace) } else { None },
-                    );
-                    if rtx.send(Reply::Done(out, trace)).is_err() {
-                        break;
+                    for h in &job.histories {
+                        let mut trace = vec![];
+                        let out = run_history(&d[job.si], job.sorted, job.enc, h, if job.want_trace { Some(&mut trace) } else { None });
+                        if rtx.send(Reply::Done(out, trace)).is_err() {
+                            return;
+                        }
                     }
                 }
             })
@@ -918,17 +914,116 @@ impl Executor {
         Executor { tx: jtx, rx: rrx, defs }
     }
 
-    fn run(&mut self, job: Job) -> Reply {
-        self.tx.send(job).expect("harness: executor thread is gone");
-        match self.rx.recv() {
-            Ok(Reply::Aborted(msg)) => {
-                *self = Executor::new(Arc::clone(&self.defs)); // the old thread is parked forever
-                Reply::Aborted(msg)
+    /// Replay every history; an abort costs one executor thread (parked forever) and
+    /// the rest of the batch is resubmitted to a fresh one.
+    fn run_batch(&mut self, si: usize, sorted: bool, enc: u8, histories: Vec<Vec<Op>>, want_trace: bool) -> Vec<Reply> {
+        let mut out = Vec::with_capacity(histories.len());
+        let mut pending = histories;
+        while !pending.is_empty() {
+            let n = pending.len();
+            self.tx
+                .send(Job { si, sorted, enc, histories: pending.clone(), want_trace })
+                .expect("harness: executor thread is gone");
+            let mut done = 0;
+            while done < n {
+                match self.rx.recv() {
+                    Ok(Reply::Aborted(msg)) => {
+                        *self = Executor::new(Arc::clone(&self.defs)); // the old thread is parked forever
+                        out.push(Reply::Aborted(msg));
+                        done += 1;
+                        break;
+                    }
+                    Ok(r) => {
+                        out.push(r);
+                        done += 1;
+                    }
+                    Err(_) => panic!("harness: executor thread died (panic in harness code)"),
+                }
             }
-            Ok(r) => r,
-            Err(_) => panic!("harness: executor thread died (panic in harness code)"),
+            pending.drain(..done);
+        }
+        out
+    }
+
+    fn run_one(&mut self, si: usize, sorted: bool, enc: u8, h: &[Op]) -> Outcome {
+        match self.run_batch(si, sorted, enc, vec![h.to_vec()], false).pop().unwrap() {
+            Reply::Done(o, _) => o,
+            Reply::Aborted(msg) => abort_outcome(msg),
         }
     }
+}
+
+fn abort_outcome(msg: String) -> Outcome {
+    viol("ABORT", format!("non-unwinding panic (the process would abort) while replaying the history: {msg}"))
+}
+
+/// Greedy, deterministic reduction of a violating history: drop operations, then
+/// batch rows, then simplify arguments, while the history still violates.
+fn reduce(exec: &mut Executor, si: usize, sorted: bool, enc: u8, h: &[Op]) -> (Vec<Op>, String) {
+    let mut cur = h.to_vec();
+    let violates = |exec: &mut Executor, h: &[Op]| -> Option<String> {
+        match exec.run_one(si, sorted, enc, h) {
+            Outcome::Violation { code, detail } => Some(format!("{code}: {detail}")),
+            _ => None,
+        }
+    };
+    let mut what = violates(exec, &cur).unwrap_or_else(|| "harness: violation did not reproduce during reduction".into());
+    loop {
+        let mut changed = false;
+        for i in (0..cur.len()).rev() {
+            let mut cand = cur.clone();
+            cand.remove(i);
+            if let Some(w) = violates(exec, &cand) {
+                cur = cand;
+                what = w;
+                changed = true;
+            }
+        }
+        for i in 0..cur.len() {
+            if let Op::Intern(b) = &cur[i] {
+                for j in (0..b.len()).rev() {
+                    if let Op::Intern(b) = &cur[i] {
+                        if b.len() <= 1 {
+                            break;
+                        }
+                        let mut nb = b.clone();
+                        nb.remove(j);
+                        let mut cand = cur.clone();
+                        cand[i] = Op::Intern(nb);
+                        if let Some(w) = violates(exec, &cand) {
+                            cur = cand;
+                            what = w;
+                            changed = true;
+                        }
+                    }
+                }
+            }
+            if let Op::Clear(2) = &cur[i] {
+                let mut cand = cur.clone();
+                cand[i] = Op::Clear(0);
+                if let Some(w) = violates(exec, &cand) {
+                    cur = cand;
+                    what = w;
+                    changed = true;
+                }
+            }
+        }
+        if !changed {
+            break;
+        }
+    }
+    (cur, what)
+}
+
+/// Operation kinds of a history with consecutive repeats collapsed.
+fn shape(h: &[Op]) -> String {
+    let mut kinds: Vec<&str> = vec![];
+    for o in h {
+        if kinds.last() != Some(&o.kind()) {
+            kinds.push(o.kind());
+        }
+    }
+    kinds.join(">")
 }
 
 fn alphabet(def: &SchemaDef, max_batch: usize) -> Vec<Op> {
@@ -944,7 +1039,7 @@ fn alphabet(def: &SchemaDef, max_batch: usize) -> Vec<Op> {
 }
 
 struct Found {
-    rank: (usize, u8, bool, usize, String),
+    rank: (usize, usize, u8, bool, String),
     what: String,
     case: Case,
 }
@@ -979,7 +1074,7 @@ fn colliding_pairs(def: &SchemaDef) -> usize {
 fn explore(ctx: &Ctx) {
     let defs = Arc::new(schemas());
     let depth_full = ctx.pick(3, 4);
-    let depth_dedup = ctx.pick(6, 9);
+    let depth_dedup = ctx.pick(5, 9);
     let batch_full = 2;
     let batch_dedup = ctx.pick(2, 3);
     ctx.set_extra(
@@ -1016,6 +1111,8 @@ fn explore(ctx: &Ctx) {
         }
     }
     let found: Mutex<BTreeMap<String, Found>> = Mutex::new(BTreeMap::new());
+    // (schema, unreduced shape, code) -> violation key of the reduced history
+    let reduced_keys: Mutex<HashMap<(usize, bool, u8, String, String), String>> = Mutex::new(HashMap::new());
 
     cfgs.par_iter().for_each(|&(si, sorted, enc, dedup)| {
         if ctx.out_of_time() {
@@ -1027,70 +1124,104 @@ fn explore(ctx: &Ctx) {
         let mut out_of_order = 0u64;
         let mut emit_empty_refused = 0u64;
         let mut exec = Executor::new(Arc::clone(&defs));
-        let stats = bfs_histories(
-            &ops,
-            depth,
-            |h: &[Op]| {
+        let mut seen: HashSet<StateKey> = HashSet::new();
+        let (mut states, mut transitions) = (0u64, 0u64);
+        let mut complete = true;
+        // root
+        match exec.run_one(si, sorted, enc, &[]) {
+            Outcome::Ok { key, .. } => {
+                seen.insert(key);
+                states += 1;
                 ctx.eval();
-                let want_trace = h.len() >= 4 && !dedup && ctx.want_sample();
-                let (out, trace) = match exec.run(Job { si, sorted, enc, history: h.to_vec(), want_trace }) {
-                    Reply::Done(o, t) => (o, t),
-                    Reply::Aborted(msg) => (viol("ABORT", format!("non-unwinding panic (the process would abort) while replaying the history: {msg}")), vec![]),
-                };
-                match out {
-                    Outcome::Ok { key, nontrivial, out_of_order: ooo } => {
-                        if ooo {
-                            out_of_order += 1;
-                        }
-                        if nontrivial {
-                            ctx.nontrivial(&(si, sorted, enc, h));
-                            if want_trace
-                                && h.iter().any(|o| matches!(o, Op::EmitFirst(_)))
-                                && matches!(h.last(), Some(Op::Intern(b)) if b.len() == 2)
-                                && (si % 7 == 3 || def.fields.len() > 1)
-                            {
-                                ctx.sample(json!({"schema": def.name, "sorted_ordering": sorted, "input_encoding": enc, "steps": trace}));
+            }
+            _ => {
+                ctx.machinery_error(format!("cannot create a GroupValues for schema {}", def.name));
+                return;
+            }
+        }
+        let mut frontier: Vec<Vec<Op>> = vec![vec![]];
+        'bfs: for d in 1..=depth {
+            let mut next: Vec<Vec<Op>> = vec![];
+            for hist in &frontier {
+                if ctx.out_of_time() {
+                    complete = false;
+                    break 'bfs;
+                }
+                let want_trace = d >= 3 && !dedup && ctx.want_sample();
+                let cands: Vec<Vec<Op>> = ops
+                    .iter()
+                    .map(|op| {
+                        let mut h = hist.clone();
+                        h.push(op.clone());
+                        h
+                    })
+                    .collect();
+                let replies = exec.run_batch(si, sorted, enc, cands.clone(), want_trace);
+                ctx.evals(cands.len() as u64);
+                for (h, reply) in cands.into_iter().zip(replies) {
+                    let (out, trace) = match reply {
+                        Reply::Done(o, t) => (o, t),
+                        Reply::Aborted(msg) => (abort_outcome(msg), vec![]),
+                    };
+                    match out {
+                        Outcome::Ok { key, nontrivial, out_of_order: ooo } => {
+                            transitions += 1;
+                            if ooo {
+                                out_of_order += 1;
+                            }
+                            if nontrivial {
+                                ctx.nontrivial(&(si, sorted, enc, &h));
+                                if want_trace
+                                    && h.iter().any(|o| matches!(o, Op::EmitFirst(_)))
+                                    && matches!(h.last(), Some(Op::Intern(b)) if b.len() == 2)
+                                    && (si % 7 == 3 || def.fields.len() > 1)
+                                {
+                                    ctx.sample(json!({"schema": def.name, "sorted_ordering": sorted, "input_encoding": enc, "steps": trace}));
+                                }
+                            }
+                            // phase 'full': nothing is merged
+                            if !dedup || seen.insert(key) {
+                                states += 1;
+                                next.push(h);
                             }
                         }
-                        if dedup {
-                            Step::Ok((key, vec![]))
-                        } else {
-                            Step::Ok((key, h.to_vec())) // history in the key: nothing is merged
+                        Outcome::Disabled => {
+                            if matches!(h.last(), Some(Op::EmitAll)) {
+                                emit_empty_refused += 1;
+                            }
+                        }
+                        Outcome::Violation { code, detail } => {
+                            transitions += 1;
+                            ctx.count("violating_histories", 1);
+                            let pre = (si, sorted, enc, shape(&h), code.to_string());
+                            let known = reduced_keys.lock().unwrap().get(&pre).cloned();
+                            if known.is_none() {
+                                let _ = detail;
+                                let (red, what) = reduce(&mut exec, si, sorted, enc, &h);
+                                let key = format!("{}|{}", def.family, shape(&red));
+                                reduced_keys.lock().unwrap().insert(pre, key.clone());
+                                let rank = (red.len(), si, enc, sorted, serde_json::to_string(&red).unwrap());
+                                let mut f = found.lock().unwrap();
+                                if f.get(&key).map(|old| old.rank > rank).unwrap_or(true) {
+                                    let case = Case { schema: def.name.clone(), sorted, enc, history: red };
+                                    f.insert(key, Found { rank, what: format!("[{} sorted={} enc={}] {}", def.name, sorted, enc, what), case });
+                                }
+                            }
                         }
                     }
-                    Outcome::Disabled => {
-                        if matches!(h.last(), Some(Op::EmitAll)) {
-                            emit_empty_refused += 1;
-                        }
-                        Step::Disabled
-                    }
-                    Outcome::Violation { code, detail } => Step::Violation(format!("{code}: {detail}")),
                 }
-            },
-            || ctx.out_of_time(),
-            |h: &[Op], what: String| {
-                let code = what.split(':').next().unwrap_or("?").to_string();
-                let last_kind = h.last().map(|o| o.kind()).unwrap_or("new");
-                let key = format!("{}|{}|{}", def.family, code, last_kind);
-                let case = Case { schema: def.name.clone(), sorted, enc, history: h.to_vec() };
-                let rank = (si, enc, sorted, h.len(), serde_json::to_string(h).unwrap());
-                let mut f = found.lock().unwrap();
-                let better = match f.get(&key) {
-                    None => true,
-                    Some(old) => (old.rank.3, &old.rank.0, &old.rank.1, &old.rank.2, &old.rank.4) > (rank.3, &rank.0, &rank.1, &rank.2, &rank.4),
-                };
-                if better {
-                    f.insert(key, Found { rank, what: format!("[{} sorted={} enc={}] {}", def.name, sorted, enc, what), case });
-                }
-                ctx.count("violating_histories", 1);
-            },
-        );
-        ctx.add_states(stats.states);
-        ctx.add_transitions(stats.transitions);
+            }
+            frontier = next;
+            if frontier.is_empty() {
+                break;
+            }
+        }
+        ctx.add_states(states);
+        ctx.add_transitions(transitions);
         ctx.count(if dedup { "configs_dedup" } else { "configs_full" }, 1);
         ctx.count("emit_on_empty_refused", emit_empty_refused);
         ctx.count("interns_numbering_new_keys_out_of_first_seen_order(ordering None only; allowed)", out_of_order);
-        if !stats.complete {
+        if !complete {
             ctx.mark_capped("wall cap reached inside a BFS");
         }
     });
@@ -1106,10 +1237,9 @@ fn replay(v: &Value) -> Result<(), String> {
     let si = defs.iter().position(|d| d.name == c.schema).ok_or_else(|| format!("unknown schema {}", c.schema))?;
     // every prefix is checked by run_history itself (it stops at the first failing step)
     let mut exec = Executor::new(Arc::clone(&defs));
-    match exec.run(Job { si, sorted: c.sorted, enc: c.enc, history: c.history.clone(), want_trace: false }) {
-        Reply::Done(Outcome::Ok { .. } | Outcome::Disabled, _) => Ok(()),
-        Reply::Done(Outcome::Violation { code, detail }, _) => Err(format!("{code}: {detail}")),
-        Reply::Aborted(msg) => Err(format!("ABORT: non-unwinding panic (the process would abort) while replaying the history: {msg}")),
+    match exec.run_one(si, c.sorted, c.enc, &c.history) {
+        Outcome::Ok { .. } | Outcome::Disabled => Ok(()),
+        Outcome::Violation { code, detail } => Err(format!("{code}: {detail}")),
     }
 }
 
